@@ -21,17 +21,19 @@ RULE = ("(a) vanilla subroutines the SDK really emits for random host programs (
         "every branch lands on the first instruction of the expansion of its old target (a target one past the end "
         "lands on the appended no-op or the new end)."
         ' Further direct families: branches / loop heads / forward jumps that target a gate itself with several operand registers in use; bystander registers that point at the electron on one path only; operand registers carried over from an earlier subroutine. Monitor on the transpiled run: every controlled rotation has virtual qubit 0 as control and another qubit as target. '
-        ' Programs may use register C15 themselves; debug listings are judged in memory and executed as decoded from their bytes. '
+        ' Loops whose back-edge keeps a Q register alive that is named only below a carbon-carbon gate (the scratch register for the electron may not be that one); loops that set a gate operand register again below the gate (known finding). Programs may use register C15 themselves; debug listings are judged in memory and executed as decoded from their bytes. '
         "Non-trivial = the program contains a gate that expands to more "
         "than one NV instruction and a taken or untaken branch across a gate; distinct = distinct program + script.")
 ASSUMPTIONS = ["the vanilla and the NV run use the same executor class and backend; only the instruction stream differs",
                "known finding nv-transpile:two-qubit-gate-on-loaded-Q-register: cases whose two-qubit gate operand was written by `load` are reported as known when they misbehave",
+               "known finding nv-transpile:gate-operand-register-set-again-below-the-gate-in-a-loop: only the family built for it (a gate operand register set again below the gate inside a loop) is reported under this key",
                "SDK-route programs whose *vanilla* run already faults (SDK relocation inside control flow on NV) are discarded and counted"]
 SHARDS = {"quick": 4, "thorough": 16}
 MIN_COUNTERS = {"subroutines_compared": 300, "branches_checked": 300}
 MIN_NONTRIVIAL = {"quick": 100, "thorough": 2000}
 WALL_BUDGET = {"quick": 200, "thorough": 2400}
 KF = "nv-transpile:two-qubit-gate-on-loaded-Q-register"
+KF_TEXT_ORDER = "nv-transpile:gate-operand-register-set-again-below-the-gate-in-a-loop"
 KF_ELECTRON = "nv-transpile:carbon-carbon-gate-needs-allocated-electron"
 KF_C15 = "nv-transpile:end-label-no-op-overwrites-register-C15"
 
@@ -102,6 +104,40 @@ def cases(ctx):
             r = rng.choice(sorted(carried))
             prog.append([rng.choice(["h", "z", "x", "k"]), [["Q", r]]] if rng.random() < 0.6 else ["rot_" + rng.choice("xyz"), [["Q", r], rng.randrange(32), 4]])
         yield {"kind": "direct", "nq": nq, "seed_prog": seed, "prog": prog, "debug": rng.random() < 0.3, "load": False, "carried": True,
+               "loaded_two_qubit": False, "script": [rng.randrange(2) for _ in range(8)]}
+    for _ in range(ctx.n(60, 5000)):
+        # a Q register that is named only BELOW a carbon-carbon gate but is live at it: the loop jumps back up, and the
+        # register borrowed for the electron may not be that one
+        nq = rng.choice([3, 4, 5])
+        seed = []
+        for v in range(nq):
+            seed += [["set", [["Q", 0], v]], ["qalloc", [["Q", 0]]], ["init", [["Q", 0]]], ["set", [["Q", 0], v]], [rng.choice(["h", "k", "x"]), [["Q", 0]]]]
+        seed += [["set", [["R", 0], 0]], ["set", [["C", 0], rng.choice([2, 3])]], ["set", [["C", 10], 1]]]
+        a, b2 = rng.sample(range(1, nq), 2)
+        ks = rng.sample([2, 3, 4], rng.choice([1, 2]))
+        prog = [["set", [["Q", 0], a]], ["set", [["Q", 1], b2]], [rng.choice(["cnot", "cphase"]), [["Q", 0], ["Q", 1]]]]
+        skip = len(prog) + 1 + len(ks)
+        prog.append(["bez", [["R", 0], skip]])
+        for k in ks:
+            prog.append([rng.choice(["x", "h", "s", "k"]), [["Q", k]]])
+        for k in ks:
+            prog.append(["set", [["Q", k], rng.randrange(nq)]])
+        prog += [["add", [["R", 0], ["R", 0], ["C", 10]]], ["blt", [["R", 0], ["C", 0], 0]]]
+        yield {"kind": "direct", "nq": nq, "seed_prog": seed, "prog": prog, "debug": rng.random() < 0.3, "load": False, "backedge": True,
+               "loaded_two_qubit": False, "script": [rng.randrange(2) for _ in range(8)]}
+    for _ in range(ctx.n(30, 2000)):
+        # the operand register of a gate inside a loop is `set` again BELOW the gate: in the second iteration it points at
+        # another qubit than the text above the gate says (known finding: values are tracked in text order)
+        nq = rng.choice([3, 4])
+        seed = []
+        for v in range(nq):
+            seed += [["set", [["Q", 0], v]], ["qalloc", [["Q", 0]]], ["init", [["Q", 0]]], ["set", [["Q", 0], v]], [rng.choice(["h", "k", "x"]), [["Q", 0]]]]
+        seed += [["set", [["R", 0], 0]], ["set", [["C", 0], 2]], ["set", [["C", 10], 1]]]
+        a, b2 = rng.sample(range(nq), 2)
+        c = rng.choice([x for x in range(nq) if x not in (a, b2)])
+        prog = [["set", [["Q", 0], a]], ["set", [["Q", 1], b2]], [rng.choice(["cnot", "cphase"]), [["Q", 0], ["Q", 1]]], ["set", [["Q", 1], c]],
+                ["add", [["R", 0], ["R", 0], ["C", 10]]], ["blt", [["R", 0], ["C", 0], 2]]]
+        yield {"kind": "direct", "nq": nq, "seed_prog": seed, "prog": prog, "debug": False, "load": False, "set_below": True,
                "loaded_two_qubit": False, "script": [rng.randrange(2) for _ in range(8)]}
     for _ in range(ctx.n(300, 30000)):
         g = HostGen(rng, max_depth=rng.choice([2, 3]), allow_regs=False)
@@ -207,7 +243,16 @@ def transpile_and_monitor(sub, debug):
     if debug:
         # the debug listing is executed the way a controller gets it: encoded and decoded with the NV flavour
         from netqasm.lang.parsing import deserialize
-        new_sub = deserialize(bytes(new_sub), flavour=codec.flavour_obj("nv"))
+        # ... after the step every SDK subroutine goes through before it is sent: instantiate (here: nothing to fill in)
+        committed = copy.deepcopy(new_sub)
+        try:
+            committed.instantiate(new_sub.app_id, {})
+            raw = bytes(committed)
+        except Exception as e:
+            return new_sub, f"the debug listing cannot be instantiated and serialised the way the SDK commits a subroutine: {type(e).__name__}: {str(e)[:120]}", {}
+        if raw != bytes(new_sub):
+            return new_sub, "instantiating the debug listing (no template to fill in) changed its bytes", {}
+        new_sub = deserialize(raw, flavour=codec.flavour_obj("nv"))
     return new_sub, None, {"branches": nbr, "expanded": bool(expanded)}
 
 
@@ -282,7 +327,7 @@ def _judge(ctx, case, err, key):
 
 def _direct(ctx, case):
     hc.reset_globals()
-    key = KF if case.get("loaded_two_qubit") else None
+    key = KF if case.get("loaded_two_qubit") else KF_TEXT_ORDER if case.get("set_below") else None
     sub_v = codec.mk_subroutine("vanilla", [0, 10], 0, case["prog"])
     sub_n = codec.mk_subroutine("vanilla", [0, 10], 0, case["prog"])
     names = named_registers(sub_v.instructions)
